@@ -918,7 +918,7 @@ def run(tier, seed, replay=None):
         obs = observe(case)
         print("oracle:", oracle(case, obs))
         return 0
-    ok = proof_ok = core.proof_stage(ctx, ["Model/C10ModelExt.vo", "Props/C10.vo"], gen_needed=("BitFns",))
+    ok = proof_ok = core.proof_stage(ctx, ["Model/C10ModelExt.vo", "Props/C10.vo"], gen_needed=("BitFns", "Namespace"))
     if not ok:
         core.broken_proof(ctx, search)
     n = 400 if tier == "quick" else 6000
